@@ -13,6 +13,9 @@
 (* The replay multiplies the homogeneous arrays of the chosen arguments    *)
 (* (per vertex for polytopes) by float factors, incl. negative ones.       *)
 (***************************************************************************)
+\* The action Rescale below is also replayed on every operand of the operation table shared with Purity.tla
+\* (harness/tableinv.py): all workspace objects at once (two rescaled workspaces) and one object at a time; operations whose
+\* answer is by definition not a function of the projective objects are listed there with the reason.
 EXTENDS Poly, Json, SequencesExt
 
 CONSTANTS DoDump
